@@ -534,7 +534,7 @@ def rule_G(ctx):
             t.call('resample', make_request(), consts['ALGO_LINEAR'], mode)
         except orders.Unsupported as ex:
             raise shape_error('Track.resample not interpretable: %s' % ex, fr.loc())
-        except (IndexError, KeyError, TypeError, AttributeError, ValueError, ZeroDivisionError, orders.Raised) as ex:
+        except orders.PROGRAM_ERRORS as ex:
             found.setdefault((case['mode'], 'fails'), ('resampling does not fail', dict(case, exception='%s: %s' % (type(ex).__name__, str(ex)[:160]))))
             return
         got = [(obs_view(o)[0], secs(obs_view(o)[1])) for o in t.fields['_Track__POINTS']]
@@ -635,7 +635,7 @@ def rule_G(ctx):
                 got = [(obs_view(o)[0], secs(obs_view(o)[1])) for o in t.fields['_Track__POINTS']]
             except orders.Unsupported as ex:
                 raise shape_error('Track.resample not interpretable: %s' % ex, fr.loc())
-            except (IndexError, KeyError, TypeError, AttributeError, ValueError, ZeroDivisionError, orders.Raised) as ex:
+            except orders.PROGRAM_ERRORS as ex:
                 found.setdefault(('temporal', 'fails'), ('resampling does not fail', dict(case, exception='%s: %s' % (type(ex).__name__, str(ex)[:160]))))
                 continue
             if len(got) != len(want) or any(not near(g_[0], w_[0]) or not abs(g_[1] - w_[1]) <= 0.0015 for g_, w_ in zip(got, want)):
@@ -665,7 +665,7 @@ def rule_G(ctx):
                                                      'positions returned': [list(g_[0]) for g_ in got][:6], 'expected': [[round(c_, 4) for c_ in w_[0]] for w_ in want][:6]}))
     except orders.Unsupported as ex:
         raise shape_error('Track.resample not interpretable: %s' % ex, fr.loc())
-    except (IndexError, KeyError, TypeError, AttributeError, ValueError, ZeroDivisionError, orders.Raised) as ex:
+    except orders.PROGRAM_ERRORS as ex:
         found.setdefault(('spatial', 'fails'), ('resampling does not fail', {'track': 'irregular sampling with an abs_curv feature', 'exception': '%s: %s' % (type(ex).__name__, str(ex)[:160])}))
     # number of points instead of a step: the step is derived in the unit of the requested mode
     for mode, extent in ((TEMP, times[-1] - times[0]), (SPAT, None)):
@@ -676,7 +676,7 @@ def rule_G(ctx):
             got = [(obs_view(o)[0], secs(obs_view(o)[1])) for o in t.fields['_Track__POINTS']]
         except orders.Unsupported as ex:
             raise shape_error('Track.resample not interpretable: %s' % ex, fr.loc())
-        except (IndexError, KeyError, TypeError, AttributeError, ValueError, ZeroDivisionError, orders.Raised) as ex:
+        except orders.PROGRAM_ERRORS as ex:
             found.setdefault(('temporal' if mode == TEMP else 'spatial', 'fails'), ('resampling does not fail', {'request': 'npts=4', 'exception': '%s: %s' % (type(ex).__name__, str(ex)[:160])}))
             continue
         if mode == TEMP:
